@@ -694,20 +694,30 @@ class FnLower:
             fn = cn + '__ctor'
         else:
             fn = cn + '__ctor__' + sig_tag(params, qualify(split(q)[0]))
-        args = self.args(ks, params)
+        args = self.args(ks, params, ext=True)
         self.externs.add(fn)
         self.emit('%s(%s);' % (fn, ', '.join([dest] + args)))
         if 'noexcept' not in rest:
             self.exc_check()
 
-    def args(self, arg_nodes, params=None):
+    def args(self, arg_nodes, params=None, ext=False):
         out = []
         for i, a in enumerate(arg_nodes):
-            out.append(self.arg(a))
+            out.append(self.arg(a, ext=ext))
         return out
 
-    def arg(self, a):
+    def arg(self, a, ext=False):
         q = qt(a)
+        if a.get('kind') == 'CXXDefaultArgExpr' and not kids(a):
+            base, np_ = split(q)
+            if 'memory_order' in base:
+                return 'VF_DEFAULT_MO'
+            if not ext:
+                raise Unsupported('defaulted argument of a repository function (type %s)' % q)
+            # defaulted argument of a std:: function: the models take a placeholder
+            if self.is_glvalue(a) or self.L.is_class(q) or np_:
+                return '((void*)0) /* default argument */'
+            return '0 /* default argument */'
         if self.is_glvalue(a):
             return self.lv(a)
         if self.L.is_class(q):
@@ -803,6 +813,8 @@ class FnLower:
             raise Unsupported('static external member ' + name)
         if self.L.by_id.get(rd['id']) is not None and self.L.by_id[rd['id']].get('_in_gmlc'):
             raise Unsupported('gmlc function %s has no body in the AST' % name)
+        if name in OPNAMES:
+            name = OPNAMES[name]
         nm = EXT_FREE.get(name) or ('std_' + name if name in EXT_FREE else 'ext_' + name)
         if nm.startswith('ext_') or EXT_FREE.get(name) is None:
             params, _ = fsig_params(ftype) if '(' in ftype else ([], '')
@@ -858,7 +870,7 @@ class FnLower:
         if info.get('selfp') is not None:
             args.append(info['selfp'])
         for a in info['args']:
-            args.append(self.arg(a))
+            args.append(self.arg(a, ext=(kind != 'repo')))
         callexpr = '%s(%s)' % (name, ', '.join(args))
         ct = self.L.ctype(q) if not self.is_glvalue(n) else self.L.ctype(q) + '*'
         result = None
